@@ -19,7 +19,7 @@ META = {
 def check(ctx):
     q = ctx.quick()
     lc.run_lc(ctx, "C07",
-              emit_cfgs=[("kinds4", "Lc_emit_kinds4.cfg"), ("refresh5", "Lc_emit_refresh5.cfg")] if q else [("kinds4", "Lc_emit_kinds4_full.cfg"), ("1ecu5", "Lc_emit_1ecu5.cfg"), ("refresh5", "Lc_emit_refresh5.cfg"), ("refresh2ecu", "Lc_emit_refresh2ecu.cfg")],
+              emit_cfgs=([("kinds4", "Lc_emit_kinds4.cfg"), ("refresh5", "Lc_emit_refresh5.cfg")] if q else [("kinds4", "Lc_emit_kinds4_full.cfg"), ("1ecu5", "Lc_emit_1ecu5.cfg"), ("refresh5", "Lc_emit_refresh5.cfg"), ("refresh2ecu", "Lc_emit_refresh2ecu.cfg")]) + lc.EPOCH_CFGS,
               mc_cfgs=[("listing", "LcListing.tla", "LcListing_quick.cfg")] if q else
                       [("listing", "LcListing.tla", "LcListing_thorough.cfg"), ("2ecu4", "LcDetector.tla", "Lc_2ecu4.cfg")],
               driver_args=["--regressions", "--random", "500" if q else "10000", "--max-len", "40" if q else "120",
